@@ -18,6 +18,12 @@ def validate_txn_index_or_throw(txnIndex: Union[int, Expr]):
         )
     if isinstance(txnIndex, Expr):
         require_type(txnIndex, TealType.uint64)
+    elif txnIndex < 0 or txnIndex >= MAX_GROUP_SIZE:
+        raise TealInputError(
+            "Invalid Gtxn index {}, shoud be in [0, {})".format(
+                txnIndex, MAX_GROUP_SIZE
+            )
+        )
 
 
 class GtxnExpr(TxnExpr):
